@@ -4,6 +4,7 @@ import (
 	"github.com/modernizing/coca/languages/java"
 	"github.com/modernizing/coca/pkg/domain/core_domain"
 	"strings"
+	"unicode/utf8"
 )
 
 func BuildMethodParameters(parameters parser.IFormalParametersContext) []core_domain.CodeProperty {
@@ -67,7 +68,8 @@ func BuildMethodCallLocation(jMethodCall *core_domain.CodeCall, ctx *parser.Meth
 	jMethodCall.Position.StartLine = ctx.GetStart().GetLine()
 	jMethodCall.Position.StartLinePosition = ctx.GetStart().GetColumn()
 	jMethodCall.Position.StopLine = ctx.GetStop().GetLine()
-	jMethodCall.Position.StopLinePosition = jMethodCall.Position.StartLinePosition + len(callee)
+	// columns count characters, not bytes
+	jMethodCall.Position.StopLinePosition = jMethodCall.Position.StartLinePosition + utf8.RuneCountInString(callee)
 }
 
 func BuildMethodCallParameters(jMethodCall *core_domain.CodeCall, ctx *parser.MethodCallContext) {
